@@ -227,6 +227,7 @@ impl C17 {
         cx: &mut Cx,
         shapes: &mut HashMap<&'static str, u64>,
         op: &Op,
+        script: &str,
         args: &[V],
         via: &str,
         sub: u64,
@@ -243,7 +244,8 @@ impl C17 {
                 return;
             }
         }
-        cx.violation(class, sub, plan::case_json(op, args, via), expected, observed);
+        cx.count(&format!("violations_in:{}", op.name), 1);
+        cx.violation(class, sub, plan::case_json_script(op, script, args, via), expected, observed);
     }
 }
 
@@ -291,7 +293,15 @@ impl Check for C17 {
         let mut sampled = false;
         for sub in s0..s1 {
             let args = plan::args_at(doms, sub);
-            let expected = op.expected(&args).expect("preflight: every op has a reference");
+            let expected = match vcore::util::catch(|| op.expected(&args)) {
+                Ok(Some(e)) => e,
+                Ok(None) => unreachable!("preflight: every op has a reference"),
+                Err(p) => {
+                    // a bug in the harness's own reference: report loudly
+                    cx.violation("reference-panic", sub, plan::case_json(op, &args, "reference"), json!("the reference evaluates"), json!(p));
+                    continue;
+                }
+            };
             if !cx.case(sub) {
                 continue;
             }
@@ -305,14 +315,14 @@ impl Check for C17 {
             };
             match (&got, exp) {
                 (Err(p), _) => {
-                    self.report(cx, &mut shapes, op, &args, "script", sub, "panic",
+                    self.report(cx, &mut shapes, op, &prep.script, &args, "script", sub, "panic",
                         exp.map_or(json!("returns"), |e| e.json()), None, json!(p));
                 }
                 (Ok(g), Some(e)) => {
                     n_val += 1;
                     cx.outcome(vcore::util::mix(opk, g.class()));
                     if g != e {
-                        self.report(cx, &mut shapes, op, &args, "script", sub, "mismatch", e.json(), Some(g), g.json());
+                        self.report(cx, &mut shapes, op, &prep.script, &args, "script", sub, "mismatch", e.json(), Some(g), g.json());
                     }
                 }
                 (Ok(g), None) => {
@@ -326,13 +336,13 @@ impl Check for C17 {
                 n_exec += 1;
                 match (&got_d, exp) {
                     (Err(p), _) => {
-                        self.report(cx, &mut shapes, op, &args, "direct", sub, "panic",
+                        self.report(cx, &mut shapes, op, &prep.script, &args, "direct", sub, "panic",
                             exp.map_or(json!("returns"), |e| e.json()), None, json!(p));
                     }
                     (Ok(g), Some(e)) => {
                         n_val += 1;
                         if g != e {
-                            self.report(cx, &mut shapes, op, &args, "direct", sub, "mismatch", e.json(), Some(g), g.json());
+                            self.report(cx, &mut shapes, op, &prep.script, &args, "direct", sub, "mismatch", e.json(), Some(g), g.json());
                         }
                     }
                     (Ok(_), None) => {}
@@ -341,7 +351,7 @@ impl Check for C17 {
                 // documentation is silent
                 if let (Ok(a), Ok(b), None) = (&got, &got_d, exp) {
                     if a != b {
-                        self.report(cx, &mut shapes, op, &args, "script-vs-direct", sub, "mismatch", b.json(), Some(a), a.json());
+                        self.report(cx, &mut shapes, op, &prep.script, &args, "script-vs-direct", sub, "mismatch", b.json(), Some(a), a.json());
                     }
                 }
             }
@@ -358,7 +368,7 @@ impl Check for C17 {
                 }
                 if !sampled {
                     sampled = true;
-                    cx.sample(json!({"builtin": op.name, "form": op.form, "script": op.script,
+                    cx.sample(json!({"builtin": op.name, "form": op.form, "script": prep.script,
                         "args": args.iter().map(|a| a.json()).collect::<Vec<_>>(),
                         "expected": e.json(),
                         "observed": got.as_ref().map_or(json!("panic"), |g| g.json())}));
